@@ -56,6 +56,9 @@ func (vc *VC) exec(rs *runState, ins ssa.Instruction) {
 		et := ins.Type().Underlying().(*types.Pointer).Elem()
 		r := vc.allocObj(h, layoutOf(et))
 		vc.vals[ins] = &Val{K: KPtr, T: ins.Type(), C: []string{r, off64(0)}}
+		if allocIsPrivate(ins) && len(vc.privRefs) < 24 {
+			vc.privRefs = append(vc.privRefs, r)
+		}
 	case *ssa.BinOp:
 		a, b := vc.val(ins.X), vc.val(ins.Y)
 		if ins.Op == token.QUO || ins.Op == token.REM {
@@ -492,4 +495,40 @@ func (vc *VC) modeName() string {
 		return "int"
 	}
 	return "bv"
+}
+
+// allocIsPrivate: the address of this local never escapes: it is only loaded from, stored to, or used to form
+// field/element addresses that are themselves only loaded from / stored to.
+func allocIsPrivate(a *ssa.Alloc) bool {
+	var ok func(v ssa.Value, d int) bool
+	ok = func(v ssa.Value, d int) bool {
+		if d > 6 || v.Referrers() == nil {
+			return false
+		}
+		for _, r := range *v.Referrers() {
+			switch u := r.(type) {
+			case *ssa.DebugRef:
+			case *ssa.UnOp:
+				if u.Op != token.MUL {
+					return false
+				}
+			case *ssa.Store:
+				if u.Val == v {
+					return false // the address itself is stored somewhere
+				}
+			case *ssa.FieldAddr:
+				if !ok(u, d+1) {
+					return false
+				}
+			case *ssa.IndexAddr:
+				if u.X != v || !ok(u, d+1) {
+					return false
+				}
+			default:
+				return false
+			}
+		}
+		return true
+	}
+	return ok(a, 0)
 }
